@@ -98,6 +98,17 @@ CLAIMS = {
          "recorded faulty trace must be accepted by the extracted faulty acceptor, payload/probe/next-dispatch oracles on the real run",
          "unwinding and rayon's panic propagation are modelled (superset: siblings complete, stop at their own panic or never start)",
          "trace-set theorems + differential correspondence", "5 C14"),
+ "C17": ("proof: table invariant (aligned tables, no type twice, tys = first-registration order) for EVERY register sequence with "
+         "repeats, total; get converts exactly the registered types through the vtable made for that very type, None otherwise, "
+         "panic for an address-changing cast; the shared iterator over a world without exclusive borrows yields exactly the "
+         "registered types present, in first-registration order, once each, own vtable, stored value. tie: S5 — exhaustive "
+         "(len<=5 over 3 types) and random histories of register / insert / remove / get / get_mut / iter / iter_mut / held "
+         "fetches over 7 implementing types of 16 bytes..4 KiB (one with a wrong CastFrom), self-reported tag, value and address "
+         "of every object compared with Meta.v",
+         "the exclusive iterator and iteration under live guards are covered by the executable model + S5, not by a separate "
+         "theorem; `present` = stored under dynamic id 0 (what the iterators look up); vtable reconstruction from raw pointers is "
+         "modelled (tag = type the function was instantiated for); the nightly cfg is not modelled",
+         "invariant induction + differential correspondence", "5 C17"),
  "C18": ("proof: C18_builder_total_and_errors_exact: for programs of any length and nesting the model builder fails exactly when the "
          "name-bookkeeping specification says so, with that error; no capacity/index/unwrap/overflow/unreachable error reachable "
          "(params_ok re-proved for the constants in the source); tie: S1 incl. malformed stream, outcome + quoted name of every call",
@@ -110,7 +121,7 @@ CLAIMS = {
          "stage/group and are outside the text",
          "invariant induction + differential correspondence", "5 C20"),
 }
-REGISTERED = ["C01", "C02", "C03", "C04", "C05", "C06", "C07", "C08", "C09", "C10", "C12", "C13", "C14", "C18", "C20"]
+REGISTERED = ["C01", "C02", "C03", "C04", "C05", "C06", "C07", "C08", "C09", "C10", "C12", "C13", "C14", "C17", "C18", "C20"]
 
 def main():
     props = [json.loads(l) for l in open(os.path.join(VERIF, "properties.jsonl"))]
